@@ -240,6 +240,45 @@ func runArgSockets(c scenario) *rp.Fail {
 	return nil
 }
 
+// self-connect: the TCP controller's configured address is the client's own fixed bind address and port, and nothing listens
+// there - the kernel connects the socket to itself (TCP simultaneous open). Whatever the call returns, with the garbage
+// collector off the process holds no more sockets after it than before.
+func runSelfConnect(c scenario) *rp.Fail {
+	port, err := farm.FreePort([4]byte{127, 0, 0, 1})
+	if err != nil {
+		return nil
+	}
+	serial := uint32(405419896)
+	cfg := hook.ClientCfg{TimeoutMs: c.TimeoutMs, BindIP: [4]byte{127, 0, 0, 1}, BindPort: port, Debug: c.Debug,
+		Devices: []hook.DeviceCfg{{Serial: serial, HasAddr: true, IP: [4]byte{127, 0, 0, 1}, Port: port, Protocol: "tcp"}}}
+	if c.Path == "any-bind" {
+		cfg.BindIP = [4]byte{0, 0, 0, 0}
+	}
+	u := hook.Real(cfg)
+	old := debug.SetGCPercent(-1)
+	defer debug.SetGCPercent(old)
+	before := farm.Sockets()
+	for i := 0; i < 3; i++ {
+		done := make(chan api.Result, 1)
+		go func() { done <- api.Invoke(u, call(c.Op, serial)) }()
+		select {
+		case res := <-done:
+			if res.Panic != nil {
+				return rp.Failf("self-connect/panic", "%s panicked: %v", c.Op, res.Panic)
+			}
+		case <-time.After(time.Duration(c.TimeoutMs)*time.Millisecond*2 + 3*time.Second):
+			return rp.Failf("self-connect/hang", "%s to a TCP controller at the client's own bind address has not returned after twice the timeout", c.Op)
+		}
+		for k := 0; k < 40 && farm.Sockets() != before; k++ {
+			time.Sleep(25 * time.Millisecond)
+		}
+		if now := farm.Sockets(); now != before {
+			return rp.Failf("self-connect/socket-left-open", "call %d: %s to a TCP controller configured at the client's own bind address 127.0.0.1:%d (nothing listens there) returned; the process held %d sockets before and holds %d a second later (garbage collector off)", i+1, c.Op, port, before, now)
+		}
+	}
+	return nil
+}
+
 // flood-already-running: datagrams stream to the client's fixed bind port BEFORE the call opens its socket and for as long as it
 // lasts (controllers that were told to send their events there, a stray flood aimed at the well-known port), about two a
 // millisecond. The controller answers the broadcast-path request after ReplyPct % of the timeout: the call returns its reply
@@ -648,6 +687,8 @@ func runScenario(c scenario, scale int) *rp.Fail {
 		return runArgSockets(c)
 	case "flood-already-running":
 		return runFloodRunning(c, scale)
+	case "self-connect":
+		return runSelfConnect(c)
 	}
 	u := hook.Real(cfg)
 	t0 := time.Now()
@@ -795,7 +836,7 @@ func runSendFails(c scenario, scale int) *rp.Fail {
 }
 
 func checkScenario(c scenario) *rp.Fail {
-	if c.Kind == "port-released" || c.Kind == "send-fails" || c.Kind == "late-wrong-reply" || c.Kind == "tcp-peer-holds-connection" || c.Kind == "no-descriptors" || c.Kind == "multicast-broadcast" || c.Kind == "generous-timeout" || c.Kind == "argument-sockets" || c.Kind == "flood-already-running" {
+	if c.Kind == "port-released" || c.Kind == "send-fails" || c.Kind == "late-wrong-reply" || c.Kind == "tcp-peer-holds-connection" || c.Kind == "no-descriptors" || c.Kind == "multicast-broadcast" || c.Kind == "generous-timeout" || c.Kind == "argument-sockets" || c.Kind == "flood-already-running" || c.Kind == "self-connect" {
 		ev.Case("scenario/"+c.Kind, true, fmt.Sprintf("%+v", c))
 	} else {
 		ev.Case(fmt.Sprintf("scenario/%s/reply-%s", c.Kind, map[bool]string{true: "in-time", false: "after-deadline"}[c.ReplyPct <= 80]), true, fmt.Sprintf("%+v", c))
@@ -840,6 +881,7 @@ func sweepScenarios(yield func(scenario) bool) {
 	}
 	cases = append(cases, scenario{Kind: "multicast-broadcast", Op: "GetTime", TimeoutMs: 400}, scenario{Kind: "multicast-broadcast", Op: "GetDevices", TimeoutMs: 300, Debug: true})
 	cases = append(cases, scenario{Kind: "no-descriptors", Op: "GetTime", TimeoutMs: 300}, scenario{Kind: "no-descriptors", Op: "OpenDoor", TimeoutMs: 200, Debug: true})
+	cases = append(cases, scenario{Kind: "self-connect", Op: "GetTime", TimeoutMs: 500}, scenario{Kind: "self-connect", Op: "OpenDoor", TimeoutMs: 400, Path: "any-bind", Debug: true})
 	cases = append(cases, scenario{Kind: "flood-already-running", Op: "GetTime", TimeoutMs: 800, ReplyPct: 15}, scenario{Kind: "flood-already-running", Op: "OpenDoor", TimeoutMs: 600, ReplyPct: 40, Debug: true})
 	for i, op := range []string{"SetListener", "SetAddress", "SetListener"} {
 		cases = append(cases, scenario{Kind: "argument-sockets", Op: op, Path: []string{"udp", "tcp", "broadcast"}[i], TimeoutMs: 3000, Debug: i == 2})
